@@ -413,6 +413,23 @@ func jsonBodyText(w *wBody, r *lib.Rand, arrayOK bool) (string, bool) {
 		bt, arr := jsonBodyText(it.body, r, true)
 		props = append(props, jprop{it.name, jsonBlockValue(it.labels, bt, arr, r, false)})
 	}
+	// "no block here": a block type of this body written once more with null or an empty array (json/spec.md:
+	// a property may define zero blocks); only types that also have real blocks in this body, so that a schema
+	// that does not know the type objects in both syntaxes
+	if r.Chance(1, 5) {
+		var types []string
+		for _, it := range items {
+			if it.isBlock && len(it.labels) == 0 {
+				// (for a labelled type an empty label level is rejected as "Missing block label")
+				types = append(types, it.name)
+			}
+		}
+		if len(types) > 0 {
+			p := r.Intn(len(props) + 1)
+			empty := jprop{types[r.Intn(len(types))], r.Pick([]string{"null", "[]"})}
+			props = append(props[:p], append([]jprop{empty}, props[p:]...)...)
+		}
+	}
 	// comment properties
 	for k := r.Intn(3); k > 0 && r.Chance(1, 3); k-- {
 		p := r.Intn(len(props) + 1)
